@@ -6,7 +6,7 @@ tmp=$(mktemp -d /tmp/runpatch.XXXXXX)
 rsync -a --exclude .git /repo/ $tmp/repo/
 mkdir -p $tmp/verif/spec; cp /verif/spec/*.json $tmp/verif/spec/; cp /verif/known_findings.json $tmp/verif/
 if (cd $tmp/repo && patch -p1 -s < $patch) ; then
-  (cd /verif && bin/dhcpverif check all --repo $tmp/repo --verif $tmp/verif > $out/$name.txt 2>&1)
+  (cd /verif && ${DHCPVERIF_BIN:-bin/dhcpverif} check all --repo $tmp/repo --verif $tmp/verif > $out/$name.txt 2>&1)
 else
   echo "PATCH DOES NOT APPLY" > $out/$name.txt
 fi
